@@ -289,6 +289,9 @@ def check_ref_property(prop: str, tier: str, seed: int) -> int:
                 out, ["construct", "convert"],
                 lambda c: c.get("constant", "none") != "none" or c.get("kind") in ("tconst", "tint", "arri8", "listi", "pyint"))
             out.coverage["construct_table_cells"] = {"executed": total, "agreeing": agree, "per_table": per}
+            # constants among the operands (constant tensors, plain arrays, a tensor's own ndarray `x.data`, Python
+            # scalars): exact values, flags and gradients of the cells of the operation table that mix them
+            stage_optable(out, ["binary", "einsum", "sequence", "matmul"])
         if prop == "C13":
             stage_memguard_failures(out)
         if prop == "C05":
